@@ -260,6 +260,12 @@ func build(s *scenario) *sim.Cluster {
 	if s.Sit == "preemptor" {
 		pg.Spec.PriorityClassName = "verif-high"
 	}
+	if s.Sit == "stale" {
+		if pg.Annotations == nil {
+			pg.Annotations = map[string]string{}
+		}
+		pg.Annotations[constants.StalePodgroupTimeStamp] = time.Now().Add(-2 * time.Hour).UTC().Format(time.RFC3339)
+	}
 	for _, g := range s.Subs {
 		sg := pgv2alpha2.SubGroup{Name: g.Name, MinMember: int32(g.Min)}
 		switch g.Parent {
@@ -301,6 +307,14 @@ func build(s *scenario) *sim.Cluster {
 			p.Spec.NodeSelector = map[string]string{arenaLabel: "yes"}
 			if s.Sit == "preemptor" {
 				p.Spec.PriorityClassName = "verif-high"
+			}
+			if s.Sit == "stale" {
+				if i == 0 {
+					p.Spec.NodeName = "anode1"
+					p.Status.Phase = v1.PodRunning
+				} else {
+					p.Spec.NodeSelector = map[string]string{"kubernetes.io/hostname": "no-such-node"}
+				}
 			}
 			if mRunning {
 				p.Spec.NodeName = "anode1"
@@ -608,6 +622,16 @@ func main() {
 								}
 								if len(msg) > 300 {
 									msg = msg[:300]
+								}
+								if strings.Contains(msg, "channel full") && attempt == 1 {
+									// the buffered watch channel of the fake API server overflowed (apimachinery
+									// watch.FakeWatcher panics instead of blocking): an artefact of the fake, not of the
+									// scheduler - the scenario is run once more in a fresh child
+									w.kill()
+									w = nil
+									timedOut = true
+									done = true
+									break
 								}
 								pe, _ := json.Marshal(map[string]any{"ev": "Panic", "msg": msg, "where": where})
 								evs = append(evs, string(pe))
